@@ -147,7 +147,7 @@ func (o *Out) Finish() {
 		name := fmt.Sprintf("shard_%03d.v", s)
 		var sb strings.Builder
 		sb.WriteString("From Coq Require Import List NArith ZArith String Uint63.\n")
-		sb.WriteString("From Verif Require Import Base.Hex Base.Verdict Check." + o.Prop + ".\n")
+		sb.WriteString("From Verif Require Import Base.Hex Base.Pack63 Base.Verdict Check." + o.Prop + ".\n")
 		sb.WriteString(o.Imports)
 		sb.WriteString("Import ListNotations.\nOpen Scope string_scope.\nOpen Scope N_scope.\n")
 		sb.WriteString("Definition cases : list " + o.CaseType + " := [\n")
